@@ -19,7 +19,7 @@ import ast
 from ..cfg import CFG, stmt_defs, node_expr
 from ..exctypes import ExcTypes
 from ..facts import conjuncts, must_facts
-from ..model import Program, call_name, norm
+from ..model import Program, call_name, norm, dict_store_keys
 from ..poly import Rat, eval_expr
 from ..report import AnalysisError
 
@@ -199,13 +199,7 @@ def declared_keys(k) -> set[str]:
         f = c.methods.get("__init__")
         if f is None:
             continue
-        for n in ast.walk(f.node):
-            if isinstance(n, ast.Assign):
-                for t in n.targets:
-                    if isinstance(t, ast.Subscript) and norm(t.value) == "self._statistic_types" and isinstance(t.slice, ast.Constant):
-                        out.add(t.slice.value)
-                    if norm(t) == "self._statistic_types" and isinstance(n.value, ast.Dict):
-                        out |= {kk.value for kk in n.value.keys if isinstance(kk, ast.Constant)}
+        out |= dict_store_keys(f.node, "self._statistic_types")
     return out
 
 
@@ -479,7 +473,13 @@ def rule_r4(rep, program: Program):
         for st in ast.walk(f.node):
             if not (isinstance(st, ast.Assign) and len(st.targets) == 1 and isinstance(st.targets[0], ast.Subscript)):
                 continue
+            # the list of file names may be built in a named local first
+            name_lists = {}
+            for a in ast.walk(f.node):
+                if isinstance(a, ast.Assign) and len(a.targets) == 1 and isinstance(a.targets[0], ast.Name) and isinstance(a.value, ast.Call) and norm(a.value.func) == "_generate_memmap_filenames":
+                    name_lists[a.targets[0].id] = a.value
             gens = [c for c in ast.walk(st.value) if isinstance(c, ast.Call) and norm(c.func) == "_generate_memmap_filenames"]
+            gens += [name_lists[x.id] for x in ast.walk(st.value) if isinstance(x, ast.Name) and x.id in name_lists]
             if not gens:
                 continue
             g = gens[0]
